@@ -613,7 +613,8 @@ def r4(ctx, parent):
 def shared_arrays(worker):
     """names bound to np.ndarray(..., buffer=<shm>.buf)"""
     nested = [n for n in ast.walk(worker.node)
-              if isinstance(n, ast.FunctionDef) and n is not worker.node]
+              if isinstance(n, ast.FunctionDef) and n is not worker.node
+              and not getattr(n, "_inlined", False)]
     for nf in nested:
         stores_param = any(
             isinstance(t, ast.Subscript) and isinstance(t.value, ast.Name)
